@@ -371,6 +371,24 @@ func doDump(w *World, spec, modeS string) {
 		k, _ := strconv.Atoi(strings.TrimPrefix(modeS, "obj"))
 		mode = Mode{Kind: mObj, K: k}
 	}
+	if modeS == "ssa" {
+		for _, b := range fn.Blocks {
+			fmt.Printf("b%d: %s preds=%v\n", b.Index, b.Comment, blockIdx(b.Preds))
+			for _, in := range b.Instrs {
+				if v, ok := in.(ssa.Value); ok {
+					fmt.Printf("    %s = %s    ; %s\n", v.Name(), in, descDepth(v, 4))
+				} else {
+					fmt.Printf("    %s\n", in)
+				}
+			}
+			if iff, ok := blockTerm(b).(*ssa.If); ok {
+				fmt.Printf("    -> b%d: %s\n    -> b%d: %s\n", b.Succs[0].Index, condLabel(iff.Cond, true), b.Succs[1].Index, condLabel(iff.Cond, false))
+			} else {
+				fmt.Printf("    -> %v\n", blockIdx(b.Succs))
+			}
+		}
+		return
+	}
 	s := w.Summarize(fn, mode)
 	fmt.Printf("== %s mode=%s complete=%v states=%d cells=%d\n", fn, mode, s.Complete, s.States, len(w.Info(fn).cells))
 	for _, ex := range s.Exits {
@@ -383,4 +401,12 @@ func doDump(w *World, spec, modeS string) {
 	for _, l := range labelList(s.Checked) {
 		fmt.Printf("      %s   @%s\n", l, s.Checked[l])
 	}
+}
+
+func blockIdx(bs []*ssa.BasicBlock) []int {
+	var r []int
+	for _, b := range bs {
+		r = append(r, b.Index)
+	}
+	return r
 }
